@@ -44,8 +44,8 @@ pub fn run(args: &Args) {
         let mut budget = 10;
         let k = 1 + rng.below(2);
         let mut vds: Vec<VD> = (0..k).map(|_| gen(&mut rng, 3, nsig, &mut budget)).collect();
-        if !with_show { fn strip(v: &mut VD) { match v { VD::Show(_, cs) => { let c = std::mem::take(cs); *v = VD::Frag(c); strip(v) } VD::El(_, _, cs) | VD::Frag(cs) => cs.iter_mut().for_each(strip), VD::DView(_, alts) => alts.iter_mut().for_each(|a| a.iter_mut().for_each(strip)), _ => {} } } vds.iter_mut().for_each(strip); }
-        let store: Vec<u32> = (0..nsig).map(|_| rng.below(4) as u32).collect();
+        if !with_show { fn strip(v: &mut VD) { match v { VD::Show(_, cs) => { let c = std::mem::take(cs); *v = VD::Frag(c); strip(v) } VD::El(_, _, cs) | VD::Frag(cs) => cs.iter_mut().for_each(strip), VD::DView(_, alts) | VD::DView0(_, alts) => alts.iter_mut().for_each(|a| a.iter_mut().for_each(strip)), _ => {} } } vds.iter_mut().for_each(strip); }
+        let store: Vec<u32> = (0..nsig + 1).map(|_| rng.below(4) as u32).collect();
         let nw = rng.below(6);
         let ws: Vec<String> = (0..nw).map(|_| format!("{}={}", rng.below(nsig), rng.below(7))).collect();
         push(&vds, &store, &if ws.is_empty() { "-".to_string() } else { ws.join(",") });
